@@ -1,6 +1,6 @@
 (* Extraction of the C01/C09 models for the correspondence driver (ocaml/verifier/driver.ml). *)
 From Coq Require Extraction.
 From Coq Require Import ExtrOcamlBasic.
-From Flatcc.Verifier Require Import VerifierModel ReaderModel.
+From Flatcc.Verifier Require Import VerifierModel ReaderModel Evolution.
 Extraction Language OCaml.
-Extraction "../ocaml/verifier/model.ml" verify_root walk_root schema_wf VERIFIER_MAX_LEVELS.
+Extraction "../ocaml/verifier/model.ml" verify_root walk_root schema_wf restricts VERIFIER_MAX_LEVELS.
